@@ -131,8 +131,18 @@ func (e *Engine) intrinsic(st *State, fn *ssa.Function, full string, args []Valu
 			e.hookFn = args[2].(FuncV)
 			e.hookCnt = e.allocVal(st, types.Typ[types.Int64], IntV{c.BV(uint64(cut), 64)}, "hookcnt")
 			return nil, true
+		case "vfSyncHook":
+			cut, ok := constInt(args[0])
+			if !ok {
+				panic(e.unsupported("vfSyncHook needs a constant cut"))
+			}
+			e.hookObj, e.hookSync = nil, true
+			e.hookFn = args[1].(FuncV)
+			e.hookCnt = e.allocVal(st, types.Typ[types.Int64], IntV{c.BV(uint64(cut), 64)}, "hookcnt")
+			return nil, true
 		case "vfStallHookOff":
-			e.hookObj = nil
+			e.hookObj, e.hookSync = nil, false
+			e.hookCnt = nil
 			return nil, true
 		case "vfSpawnCut":
 			cut, ok := constInt(args[1])
@@ -154,6 +164,9 @@ func (e *Engine) intrinsic(st *State, fn *ssa.Function, full string, args []Valu
 			e.atomicMark(st, false)
 			return nil, true
 		case "vfYield":
+			return nil, true
+		case "vfRunGoroutines":
+			e.runDeferredGo(st)
 			return nil, true
 		case "vfInfeasibleOK":
 			e.InfeasibleOK = true
